@@ -53,6 +53,10 @@ pub struct TreeSpec {
     /// chains run through the highest cluster numbers of the volume
     #[serde(default)]
     pub alloc_top: bool,
+    /// FAT16 only: bytes 20..22 of pre-existing file entries hold a non-zero value (the extended-attribute handle of
+    /// DOS 4+/OS/2/NT), which is not part of the cluster number there
+    #[serde(default)]
+    pub ea_handles: bool,
 }
 
 #[derive(Serialize, Deserialize, Clone, Debug, PartialEq)]
@@ -74,6 +78,10 @@ pub struct VolSpec {
     pub backup_boot: u16,
     pub fsinfo: FsInfoKind,
     pub label: bool,
+    /// BPB_ExtFlags of a FAT32 boot sector (bit 7: mirroring disabled, bits 0-3: active FAT); both copies are
+    /// formatted identically whatever it says
+    #[serde(default)]
+    pub ext_flags: u16,
     pub tree: TreeSpec,
 }
 
@@ -142,7 +150,8 @@ impl VolSpec {
             backup_boot: 6,
             fsinfo: FsInfoKind::Correct,
             label: false,
-            tree: TreeSpec { seed: 1, dirs: 0, files: 0, depth: 0, max_clusters: 1, lfn: false, deleted: false, vol_label: false, fragment: false, free: None, free_high: false, free_last: false, bad: 0, high_nibble: false, latin1: false, big_dirs: false, full_dirs: None, dir_attrs: false, alloc_top: false },
+            ext_flags: 0,
+            tree: TreeSpec { seed: 1, dirs: 0, files: 0, depth: 0, max_clusters: 1, lfn: false, deleted: false, vol_label: false, fragment: false, free: None, free_high: false, free_last: false, bad: 0, high_nibble: false, latin1: false, big_dirs: false, full_dirs: None, dir_attrs: false, alloc_top: false, ea_handles: false },
         }
     }
 }
@@ -453,7 +462,14 @@ impl<'a> Builder<'a> {
                     4 => 0x00,
                     _ => 0x20,
                 };
-                slots.push(entry_raw(&name, attr, ch.first().copied().unwrap_or(0), size, fat32, FORMAT_TIME));
+                let mut fe = entry_raw(&name, attr, ch.first().copied().unwrap_or(0), size, fat32, FORMAT_TIME);
+                if !fat32 && self.spec.ea_handles {
+                    let hsh = crate::rng::fnv(&[&self.spec.seed.to_le_bytes()[..], &name[..]].concat());
+                    if hsh % 3 != 0 {
+                        fe[20..22].copy_from_slice(&[(hsh >> 8) as u8 | 1, (hsh >> 16) as u8]);
+                    }
+                }
+                slots.push(fe);
                 self.manifest.push(ManifestEntry { path: format!("{}/{}", path, nstr), is_dir: false, size, hash: crate::rng::fnv(&data), attr });
             }
         }
@@ -586,6 +602,7 @@ pub fn format_volume(img: &mut Image, v: &VolSpec) -> VolOut {
     let label: &[u8; 11] = if v.label { b"SIMLABEL   " } else { b"           " };
     if v.fat32 {
         b[36..40].copy_from_slice(&fat_size.to_le_bytes());
+        b[40..42].copy_from_slice(&v.ext_flags.to_le_bytes());
         b[44..48].copy_from_slice(&g.root_cluster.to_le_bytes());
         b[48..50].copy_from_slice(&v.fsinfo_sector.to_le_bytes());
         b[50..52].copy_from_slice(&v.backup_boot.to_le_bytes());
@@ -1047,6 +1064,7 @@ pub fn gen_volspec(rng: &mut Rng, bias: Bias, lba: u32, slot: u8) -> VolSpec {
         backup_boot,
         fsinfo,
         label: rng.chance(1, 2),
+        ext_flags: if fat32 && rng.chance(1, 6) { *rng.pick(&[0x0080u16, 0x0081, 0x0001, 0x000F]) } else { 0 },
         tree: TreeSpec {
             seed: rng.next_u64(),
             dirs: rng.range(0, 6) as u8,
@@ -1067,6 +1085,7 @@ pub fn gen_volspec(rng: &mut Rng, bias: Bias, lba: u32, slot: u8) -> VolSpec {
             full_dirs: if spc <= 8 && rng.chance(1, if matches!(bias, Bias::Space | Bias::Small) { 3 } else { 6 }) { Some(rng.below(3) as u8) } else { None },
             dir_attrs: rng.chance(1, 3),
             alloc_top: rng.chance(1, 4),
+            ea_handles: !fat32 && rng.chance(1, 4),
         },
     }
 }
